@@ -11,25 +11,29 @@ SCALARS = [-1.0, 0.5, 2.0, 0.0]
 
 
 def grid_of(spec):
-    return H.reg(spec[1]) if spec[0] == "reg" else H.near(spec[1])
+    return H.grid_of(spec)
 
 
 def menu_for(kind, spec):
     G = grid_of(spec)
-    return H.pwc_menu(G) if kind == "pwc" else H.pwl_menu(G)
+    if kind == "pwc":
+        return H.pwc_menu(G)
+    # the non-dyadic value pattern only where it adds something: far from the origin
+    return H.pwl_menu(G, H.PWL_PATTERNS if spec[0] == "far" else H.PWL_PATTERNS[:3])
 
 
 def plan(tier):
     if tier == "quick":
         specs = [("pwc", ("reg", 4), 3), ("pwl", ("reg", 4), 3), ("pwc", ("reg", 5), 2),
                  ("pwl", ("reg", 5), 2), ("pwc", ("reg", 6), 1), ("pwl", ("reg", 6), 1),
-                 ("pwc", ("near", 3), 2), ("pwl", ("near", 3), 2)]
+                 ("pwc", ("near", 3), 2), ("pwl", ("near", 3), 2),
+                 ("pwc", ("far", 4), 1), ("pwl", ("far", 4), 2)]
     else:
         specs = [("pwc", ("reg", 4), 3), ("pwl", ("reg", 4), 3), ("pwc", ("reg", 5), 2),
                  ("pwl", ("reg", 5), 2), ("pwc", ("reg", 6), 2), ("pwl", ("reg", 6), 2),
                  ("pwc", ("reg", 7), 1), ("pwl", ("reg", 7), 1),
                  ("pwc", ("near", 3), 2), ("pwl", ("near", 3), 2), ("pwc", ("near", 4), 1),
-                 ("pwl", ("near", 4), 1)]
+                 ("pwl", ("near", 4), 1), ("pwc", ("far", 4), 2), ("pwl", ("far", 5), 2)]
     tasks = []
     desc = []
     for kind, spec, depth in specs:
@@ -41,7 +45,8 @@ def plan(tier):
                               "shard": s, "nshards": nsh})
         desc.append({"class": kind, "grid": list(spec), "grid_points": grid_of(spec),
                      "operand_menu": len(names), "history_depth": depth, "scalars": SCALARS,
-                     "value_patterns": H.PWC_PATTERNS if kind == "pwc" else H.PWL_PATTERNS})
+                     "value_patterns": H.PWC_PATTERNS if kind == "pwc" else
+                     (H.PWL_PATTERNS if spec[0] == "far" else H.PWL_PATTERNS[:3])})
     return {
         "tasks": tasks,
         "bounds": {"explorations": desc, "backends": ["py", "pyx-model (cython_add)"]},
@@ -49,7 +54,8 @@ def plan(tier):
                 "PieceWiseConstFunc / PieceWiseLinFunc objects, starting from every function of "
                 "the operand menu (all breakpoint subsets of the interior grid points x value "
                 "patterns incl. Python-int values); 'reg' grids are the time lattice, 'near' grids "
-                "add breakpoints 2^-30 next to lattice points (near-ties); states are "
+                "add breakpoints 2^-30 next to lattice points (near-ties), 'far' grids are the "
+                "lattice moved to 2^27; states are "
                 "deduplicated by the exact model state; distinct = distinct model states reached",
         "exhaustive": True,
         "assumptions": ["breakpoints on the stated grids, dyadic values (all sums exact)",
